@@ -15,7 +15,10 @@ import (
 
 	"github.com/google/gce-tcb-verifier/gcetcbendorsement"
 	epb "github.com/google/gce-tcb-verifier/proto/endorsement"
+	"github.com/google/gce-tcb-verifier/sev"
 	"github.com/google/gce-tcb-verifier/verify"
+	cpb "github.com/google/go-sev-guest/proto/check"
+	tcpb "github.com/google/go-tdx-guest/proto/checkconfig"
 	"google.golang.org/protobuf/proto"
 	"google.golang.org/protobuf/types/known/timestamppb"
 	"pgregory.net/rapid"
@@ -70,10 +73,14 @@ func (tb *table) fresh(t *rapid.T, label string) []byte {
 
 func genTable(t *rapid.T) *table {
 	tb := &table{snp: map[uint32][]byte{}}
-	tb.hasSnp = rapid.IntRange(0, 9).Draw(t, "hasSnp") != 0
-	tb.hasTdx = rapid.IntRange(0, 9).Draw(t, "hasTdx") != 0
+	tb.hasSnp = rapid.IntRange(0, 19).Draw(t, "hasSnp") != 19
+	tb.hasTdx = rapid.IntRange(0, 19).Draw(t, "hasTdx") != 19
 	if tb.hasSnp {
-		n := rapid.IntRange(0, 6).Draw(t, "nCounts")
+		// rapid favours small draws: an empty table is an explicit 1-in-12 choice, not the value 0 of the size
+		n := rapid.IntRange(1, 6).Draw(t, "nCounts")
+		if rapid.IntRange(0, 11).Draw(t, "emptyTable") == 11 {
+			n = 0
+		}
 		for i := 0; i < n; i++ {
 			c := rapid.SampledFrom(vmsaCounts).Draw(t, "count")
 			if _, ok := tb.snp[c]; ok {
@@ -88,11 +95,20 @@ func genTable(t *rapid.T) *table {
 			tb.snp[c] = tb.fresh(t, "meas")
 		}
 		if rapid.IntRange(0, 2).Draw(t, "svsm") == 0 {
-			tb.svsm = tb.fresh(t, "svsmv")
+			if v, ok := tb.snp[1]; ok && rapid.Bool().Draw(t, "svsmDup") {
+				// the SVSM value coincides with measurements[1]: the only shape under which the policy
+				// path (measurements[1]) and the library path (SVSM value) agree for VMSA count 1
+				tb.svsm = v
+			} else {
+				tb.svsm = tb.fresh(t, "svsmv")
+			}
 		}
 	}
 	if tb.hasTdx {
-		n := rapid.IntRange(0, 5).Draw(t, "nRows")
+		n := rapid.IntRange(1, 5).Draw(t, "nRows")
+		if rapid.IntRange(0, 11).Draw(t, "noRows") == 11 {
+			n = 0
+		}
 		for i := 0; i < n; i++ {
 			tb.tdx = append(tb.tdx, &epb.VMTdx_Measurement{
 				RamGib:      rapid.SampledFrom(ramSizes).Draw(t, "ram"),
@@ -175,48 +191,52 @@ func member(v []byte, set [][]byte) bool {
 	return false
 }
 
-// pickValue draws the report value and names its relation to the table.
-func pickValue(t *rapid.T, allowed [][]byte, others [][]byte) ([]byte, string) {
-	kinds := []string{"endorsed", "one-bit-neighbour", "other-config", "random"}
-	k := rapid.SampledFrom(kinds).Draw(t, "relation")
-	flip := func(v []byte) []byte {
-		c := append([]byte(nil), v...)
-		bit := rapid.IntRange(0, 48*8-1).Draw(t, "bit")
-		c[bit/8] ^= 1 << (bit % 8)
-		return c
+// pickValue draws the report value and names its relation to the table. Relations that the table
+// cannot supply are not offered, so that "random" keeps a small share instead of absorbing every
+// unavailable choice. detail is a coarse bucket of the flipped bit (for distinctness only).
+func pickValue(t *rapid.T, allowed [][]byte, others [][]byte) (value []byte, rel string, detail string) {
+	var cand [][]byte
+	for _, o := range others {
+		if !member(o, allowed) {
+			cand = append(cand, o)
+		}
 	}
+	// rapid favours the front of a list: the informative relations come first, "random" last
+	var kinds []string
+	if len(cand) > 0 {
+		kinds = append(kinds, "other-config", "other-config", "other-config")
+	}
+	if len(allowed)+len(others) > 0 {
+		kinds = append(kinds, "one-bit-neighbour", "one-bit-neighbour")
+	}
+	if len(allowed) > 0 {
+		kinds = append(kinds, "endorsed", "endorsed")
+	}
+	kinds = append(kinds, "random")
+	k := rapid.SampledFrom(kinds).Draw(t, "relation")
 	switch k {
 	case "endorsed":
-		if len(allowed) > 0 {
-			return allowed[rapid.IntRange(0, len(allowed)-1).Draw(t, "which")], k
-		}
+		return allowed[rapid.IntRange(0, len(allowed)-1).Draw(t, "which")], k, ""
 	case "one-bit-neighbour":
 		src := allowed
 		if len(src) == 0 {
 			src = others
 		}
-		if len(src) > 0 {
-			return flip(src[rapid.IntRange(0, len(src)-1).Draw(t, "which")]), k
-		}
+		c := append([]byte(nil), src[rapid.IntRange(0, len(src)-1).Draw(t, "which")]...)
+		bit := rapid.IntRange(0, 48*8-1).Draw(t, "bit")
+		c[bit/8] ^= 1 << (bit % 8)
+		return c, k, "b" + strconv.Itoa(bit/48)
 	case "other-config":
-		var cand [][]byte
-		for _, o := range others {
-			if !member(o, allowed) {
-				cand = append(cand, o)
-			}
-		}
-		if len(cand) > 0 {
-			return cand[rapid.IntRange(0, len(cand)-1).Draw(t, "which")], k
-		}
+		return cand[rapid.IntRange(0, len(cand)-1).Draw(t, "which")], k, ""
 	}
-	return rapid.SliceOfN(rapid.Byte(), 48, 48).Draw(t, "rand"), "random"
+	return rapid.SliceOfN(rapid.Byte(), 48, 48).Draw(t, "rand"), "random", ""
 }
 
 func requestedCount(t *rapid.T, tb *table) (uint32, string) {
-	switch rapid.IntRange(0, 4).Draw(t, "countKind") {
-	case 0:
+	switch rapid.IntRange(0, 5).Draw(t, "countKind") {
+	case 3:
 		return 0, "count=0"
-	case 1, 2:
+	case 0, 1, 2:
 		if ks := sortedKeys(tb.snp); len(ks) > 0 {
 			c := ks[rapid.IntRange(0, len(ks)-1).Draw(t, "listed")]
 			if c == 1 {
@@ -225,7 +245,7 @@ func requestedCount(t *rapid.T, tb *table) (uint32, string) {
 			return c, "count=listed"
 		}
 		return 1, "count=1"
-	case 3:
+	case 4:
 		return 1, "count=1"
 	}
 	for {
@@ -245,21 +265,66 @@ func recoverCall(f func() error) (err error, pan any) {
 	return f(), nil
 }
 
-const snpRule = "endorsed SNP tables (any subset of the 15 GCE VMSA counts with distinct 48-byte values, optional duplicates, optional SVSM value, SNP section absent 10%) x requested count {0, listed, 1, unlisted} x report measurement {endorsed for the request, one-bit neighbour (bit drawn), endorsed for another count, random, wrong length for the closure} x entry {verify.SNP, validator closure, verify.Endorsement with expected digest, SevValidate, SevPolicy}; oracle: accept => measurement in Allowed(count) (count 0: all listed + SVSM; count 1: {measurements[1], svsm}; else {measurements[count]}); Allowed empty => reject; expected digest given => accept => equal; SevPolicy(count).measurement in Allowed(count); non-trivial = request names a configuration and the value is not the endorsed one for it, or the configuration is absent, or accepted-with-named-configuration; distinct = (entry, request class, relation, bit bucket, table size)"
+// snpBase is a caller-supplied go-sev-guest base policy for the policy-deriving entry points.
+type snpBase struct {
+	kind      string
+	pol       *cpb.Policy
+	overwrite bool
+	x         []byte // a measurement the base policy lists that the endorsement does not
+}
+
+func drawSnpBase(t *rapid.T, tb *table, allowed [][]byte) snpBase {
+	switch rapid.SampledFrom([]string{"none", "none", "none", "empty", "unendorsed+overwrite", "unendorsed+overwrite", "unendorsed", "endorsed"}).Draw(t, "base") {
+	case "empty":
+		return snpBase{kind: "base=empty", pol: &cpb.Policy{}, overwrite: rapid.Bool().Draw(t, "overwrite")}
+	case "unendorsed+overwrite":
+		x := tb.fresh(t, "baseMeas")
+		return snpBase{kind: "base=unendorsed+overwrite", pol: &cpb.Policy{Measurement: x}, overwrite: true, x: x}
+	case "unendorsed":
+		x := tb.fresh(t, "baseMeas")
+		return snpBase{kind: "base=unendorsed", pol: &cpb.Policy{Measurement: x}, x: x}
+	case "endorsed":
+		if len(allowed) > 0 {
+			return snpBase{kind: "base=endorsed", pol: &cpb.Policy{Measurement: allowed[rapid.IntRange(0, len(allowed)-1).Draw(t, "baseWhich")]}, overwrite: rapid.Bool().Draw(t, "overwrite")}
+		}
+	}
+	return snpBase{kind: "base=none"}
+}
+
+const snpRule = "endorsed SNP tables (1-6 draws from the 15 GCE VMSA counts with distinct 48-byte values, empty table 1 in 12, optional duplicates, optional SVSM value (half of them equal to measurements[1] when that is listed), SNP section absent 5%) x requested count {0, listed, 1, unlisted} x report measurement {endorsed for the request, one-bit neighbour (bit drawn), endorsed for another count, random, the unendorsed measurement of the caller's base policy, wrong length for the closure}; relations the table cannot supply are not offered x entry {verify.SNP, validator closure (serialized endorsement), closure with expected digest, SevValidate with the endorsement passed, SevValidate with the endorsement in the certificate-table extras, SevPolicy} x for SevValidate/SevPolicy a base policy {none, empty, lists an unendorsed measurement with/without overwrite, lists an endorsed one}; oracle: accept => measurement in Allowed(count) (count 0: all listed + SVSM; count 1: {measurements[1], svsm}; else {measurements[count]}); Allowed empty => reject; expected digest given => accept => equal; SevPolicy(count).measurement in Allowed(count); a rejected endorsed value is counted as inconclusive, not judged (the statement does not demand acceptance); non-trivial = the SNP section lists something and (request names a configuration and the value is not the endorsed one for it, or the configuration is absent, or accepted-with-named-configuration, or the value is a neighbour / wrong length / base-listed); distinct = (entry, base kind, request class, relation, bit bucket, digest note, table size, svsm)"
+
+var noteOnce = map[string]bool{}
+
+// inconclusive counts a case the statement does not let us judge (for example a rejected endorsed
+// value) and leaves one note per kind in the evidence.
+func inconclusive(name, kind, format string, args ...any) {
+	ev.Class(name, "inconclusive/"+kind)
+	if !noteOnce[name+kind] {
+		noteOnce[name+kind] = true
+		ev.Note("%s: inconclusive/%s (first occurrence): %s", name, kind, fmt.Sprintf(format, args...))
+	}
+}
 
 func TestSnp(t *testing.T) {
 	const name = "snp"
 	world()
 	ev.Rule(name, snpRule)
 	checks(ev.Scale(3000, 25000))
-	entries := []string{"verify.SNP", "closure", "closure+digest", "SevValidate", "SevPolicy", "closure/wrong-length"}
+	entries := []string{"verify.SNP", "closure", "closure+digest", "SevValidate", "SevValidate", "SevValidate/extras", "SevPolicy", "SevPolicy", "closure/wrong-length"}
 	rapid.Check(t, func(t *rapid.T) {
 		tb := genTable(t)
 		n, ncls := requestedCount(t, tb)
 		allowed := tb.allowedSnp(n)
 		all := tb.allowedSnp(0)
-		value, rel := pickValue(t, allowed, all)
 		entry := rapid.SampledFrom(entries).Draw(t, "entry")
+		base := snpBase{kind: "base=none"}
+		if entry == "SevValidate" || entry == "SevValidate/extras" || entry == "SevPolicy" {
+			base = drawSnpBase(t, tb, allowed)
+		}
+		value, rel, detail := pickValue(t, allowed, all)
+		if base.x != nil && rapid.IntRange(0, 2).Draw(t, "useBase") == 0 {
+			value, rel, detail = base.x, "base-listed", ""
+		}
 		golden := tb.golden()
 		e := pki.Endorse(golden, signCert.Raw, pki.Key(1))
 		eb, _ := proto.Marshal(e)
@@ -281,6 +346,7 @@ func TestSnp(t *testing.T) {
 			copy(v, value)
 			value = v
 			rel = "wrong-length"
+			detail = "l" + strconv.Itoa(l)
 			f := verify.SNPValidateFunc(&verify.Options{RootsOfTrust: pool, Now: t0, SNP: &verify.SNPOptions{ExpectedLaunchVMSAs: n}})
 			err, pan = recoverCall(func() error { return f(attest.SnpAttestation(value, nil), eb) })
 		case "closure+digest":
@@ -299,12 +365,17 @@ func TestSnp(t *testing.T) {
 			}
 		case "SevValidate":
 			err, pan = recoverCall(func() error {
-				return gcetcbendorsement.SevValidate(ctx, attest.SnpAttestation(value, nil), &gcetcbendorsement.SevValidateOptions{Endorsement: e, RootsOfTrust: pool, Now: t0, ExpectedLaunchVmsas: n})
+				return gcetcbendorsement.SevValidate(ctx, attest.SnpAttestation(value, nil), &gcetcbendorsement.SevValidateOptions{Endorsement: e, RootsOfTrust: pool, Now: t0, ExpectedLaunchVmsas: n, BasePolicy: base.pol, Overwrite: base.overwrite})
+			})
+		case "SevValidate/extras":
+			// the endorsement travels in the attestation's certificate table; no Getter, so nothing is fetched
+			err, pan = recoverCall(func() error {
+				return gcetcbendorsement.SevValidate(ctx, attest.SnpAttestation(value, map[string][]byte{sev.GCEFwCertGUID: eb}), &gcetcbendorsement.SevValidateOptions{RootsOfTrust: pool, Now: t0, ExpectedLaunchVmsas: n, BasePolicy: base.pol, Overwrite: base.overwrite})
 			})
 		case "SevPolicy":
 			var pol interface{ GetMeasurement() []byte }
 			err, pan = recoverCall(func() error {
-				p, perr := gcetcbendorsement.SevPolicy(ctx, e, &gcetcbendorsement.SevPolicyOptions{LaunchVmsas: n, AllowUnspecifiedVmsas: true})
+				p, perr := gcetcbendorsement.SevPolicy(ctx, e, &gcetcbendorsement.SevPolicyOptions{LaunchVmsas: n, AllowUnspecifiedVmsas: true, Base: base.pol, Overwrite: base.overwrite})
 				if perr == nil {
 					pol = p
 				}
@@ -312,13 +383,14 @@ func TestSnp(t *testing.T) {
 			})
 			if pan == nil && err == nil && n != 0 {
 				if !member(pol.GetMeasurement(), allowed) {
-					ev.Violation(t, "C02/snp/policy-measurement-not-endorsed", "SevPolicy(launch_vmsas=%d) put measurement %x into the policy; allowed for that count: %x", n, pol.GetMeasurement(), allowed)
+					ev.Violation(t, "C02/snp/policy-measurement-not-endorsed", "SevPolicy(launch_vmsas=%d, %s) put measurement %x into the policy; allowed for that count: %x", n, base.kind, pol.GetMeasurement(), allowed)
 					return
 				}
 			}
-			rel = "n/a"
+			rel, detail = "n/a", ""
 		}
 		if pan != nil {
+			ev.Class(name, "inconclusive/panic")
 			ev.Note("panic observed at %s (judged by C07): %v", entry, pan)
 			return
 		}
@@ -328,20 +400,30 @@ func TestSnp(t *testing.T) {
 			if len(allowed) == 0 {
 				key = "C02/snp/absent-configuration-accepted"
 			}
-			ev.Violation(t, key, "%s accepted measurement %x (%s) for requested VMSA count %d; allowed set %x; table %v svsm %x", entry, value, rel, n, allowed, tb.snp, tb.svsm)
+			ev.Violation(t, key, "%s (%s) accepted measurement %x (%s) for requested VMSA count %d; allowed set %x; table %v svsm %x", entry, base.kind, value, rel, n, allowed, tb.snp, tb.svsm)
 			return
 		}
-		// vacuity guard: the endorsed value for a listed count >= 2 must be accepted by the library paths
-		if entry != "SevPolicy" && !accepted && rel == "endorsed" && (ncls == "count=listed" || ncls == "count=0") && digestNote != "digest=one-bit-off" {
-			ev.Violation(t, "C02/snp/endorsed-measurement-rejected", "%s rejected the endorsed measurement for count %d: %v", entry, n, err)
-			return
+		// The statement does not demand that an endorsed value is accepted; a rejection is counted so
+		// that a check which has become vacuous shows in the evidence.
+		if entry != "SevPolicy" && !accepted && rel == "endorsed" && (ncls == "count=listed" || ncls == "count=0") && digestNote != "digest=one-bit-off" && (base.kind == "base=none" || base.kind == "base=empty") {
+			inconclusive(name, "endorsed-rejected", "%s rejected the endorsed measurement for count %d: %v", entry, n, err)
 		}
-		nontrivial := (n != 0 && (rel != "endorsed" || accepted)) || len(allowed) == 0 || rel == "one-bit-neighbour" || rel == "wrong-length"
+		present := tb.hasSnp && len(all) > 0
+		nontrivial := present && ((n != 0 && (rel != "endorsed" || accepted)) || len(allowed) == 0 || rel == "one-bit-neighbour" || rel == "wrong-length" || rel == "base-listed")
 		outcome := map[bool]string{true: "accept", false: "reject"}[accepted]
-		ev.Case(name, nontrivial, fmt.Sprintf("%s|%s|%s|%s|%d|%v", entry, ncls, rel, digestNote, len(tb.snp), len(tb.svsm) > 0), ncls+"/"+rel+"/"+outcome, func() any {
-			return map[string]any{"entry": entry, "requested_vmsas": n, "table_counts": sortedKeys(tb.snp), "svsm": len(tb.svsm) > 0, "relation": rel, "accepted": accepted, "error": errStr(err)}
+		ev.Case(name, nontrivial, fmt.Sprintf("%s|%s|%s|%s|%s|%s|%d|%v", entry, base.kind, ncls, rel, detail, digestNote, len(tb.snp), len(tb.svsm) > 0), ncls+"/"+rel+"/"+outcome, func() any {
+			return map[string]any{"entry": entry, "base": base.kind, "requested_vmsas": n, "table_counts": sortedKeys(tb.snp), "svsm": len(tb.svsm) > 0, "relation": rel, "accepted": accepted, "error": errStr(err)}
 		})
 		ev.Class(name, "entry:"+entry)
+		if !present {
+			ev.Class(name, "table:nothing-listed")
+		}
+		if base.kind != "base=none" {
+			ev.Class(name, base.kind+"/"+outcome)
+		}
+		if accepted && entry != "SevPolicy" {
+			ev.Class(name, "accepted-at:"+entry+"/"+ncls)
+		}
 	})
 }
 
@@ -356,7 +438,54 @@ func errStr(err error) string {
 	return s
 }
 
-const tdxRule = "endorsed TDX rows (0-5 rows over RAM sizes {0,16,32,88,176,352,704} x early-accept, distinct MRTDs, TDX section absent 10%) x requested RAM {0, listed, unlisted} x quote MRTD {endorsed for the request, one-bit neighbour, endorsed for another RAM size, random} x entry {TdxValidate, TdxPolicy}; oracle: accept => MRTD in rows(ram) (all rows for 0); no row => reject; TdxPolicy any_mr_td == rows(ram) exactly; non-trivial as for SNP; distinct = (entry, request class, relation, rows)"
+const tdxRule = "endorsed TDX rows (1-5 rows, no rows 1 in 12, over RAM sizes {0,16,32,88,176,352,704} x early-accept, distinct MRTDs, TDX section absent 5%) x requested RAM as the int the API takes {0, listed, unlisted small, a value outside 32 bits whose low 32 bits equal a listed size (listed +/- 2^32, 2^32 itself against ram_gib 0 rows, -1)} x caller base policy {none, empty, quote-body policy without any_mr_td, any_mr_td listing an unendorsed MRTD with / without overwrite} x quote MRTD {endorsed for the request, one-bit neighbour, endorsed for another RAM size, random, the base policy's unendorsed MRTD, the MRTD of the row the truncated size aliases} x quote rendering {raw, go-tpm-tools wrapper} x entry {TdxValidate, TdxPolicy}; oracle: accept => MRTD in rows(ram) (all rows for 0; rows(ram) compares the caller's number, not its low 32 bits); no row => reject; every any_mr_td entry of a returned policy is in rows(ram) and the list is not empty (set-wise: order, duplicates and omissions are not judged); a rejected endorsed MRTD is counted as inconclusive; non-trivial = rows exist and (request names a size and the value is not endorsed for it, or the size has no row, or accepted-with-named-size, or neighbour / base-listed / aliased value); distinct = (entry, base kind, request class, relation, bit bucket, rows, rendering)"
+
+var two32 = int64(1) << 32
+
+type tdxBase struct {
+	kind      string
+	pol       *tcpb.Policy
+	overwrite bool
+	x         []byte
+}
+
+func drawTdxBase(t *rapid.T, tb *table) tdxBase {
+	switch rapid.SampledFrom([]string{"none", "none", "none", "empty", "body", "unendorsed+overwrite", "unendorsed+overwrite", "unendorsed"}).Draw(t, "base") {
+	case "empty":
+		return tdxBase{kind: "base=empty", pol: &tcpb.Policy{}, overwrite: rapid.Bool().Draw(t, "overwrite")}
+	case "body":
+		return tdxBase{kind: "base=body", pol: &tcpb.Policy{TdQuoteBodyPolicy: &tcpb.TDQuoteBodyPolicy{}}, overwrite: rapid.Bool().Draw(t, "overwrite")}
+	case "unendorsed+overwrite":
+		x := tb.fresh(t, "baseMrtd")
+		return tdxBase{kind: "base=unendorsed+overwrite", pol: &tcpb.Policy{TdQuoteBodyPolicy: &tcpb.TDQuoteBodyPolicy{AnyMrTd: [][]byte{x}}}, overwrite: true, x: x}
+	case "unendorsed":
+		x := tb.fresh(t, "baseMrtd")
+		return tdxBase{kind: "base=unendorsed", pol: &tcpb.Policy{TdQuoteBodyPolicy: &tcpb.TDQuoteBodyPolicy{AnyMrTd: [][]byte{x}}}, x: x}
+	}
+	return tdxBase{kind: "base=none"}
+}
+
+// allowedTdxInt is the oracle for the int-typed request of the API: a row is endorsed for the
+// request only if its size equals the number the caller named.
+func (tb *table) allowedTdxInt(ram int) [][]byte {
+	var out [][]byte
+	for _, r := range tb.tdx {
+		if ram == 0 || int64(r.RamGib) == int64(ram) {
+			out = append(out, r.Mrtd)
+		}
+	}
+	return out
+}
+
+func tdxQuote(t *rapid.T, mrtd []byte) ([]byte, string) {
+	if rapid.IntRange(0, 3).Draw(t, "rendering") == 0 {
+		fs, err := attest.TdxFormats(mrtd)
+		if err == nil {
+			return fs["tpm"], "tpm"
+		}
+	}
+	return attest.TdxRawQuote(mrtd), "raw"
+}
 
 func TestTdx(t *testing.T) {
 	const name = "tdx"
@@ -365,66 +494,96 @@ func TestTdx(t *testing.T) {
 	checks(ev.Scale(2000, 20000))
 	rapid.Check(t, func(t *rapid.T) {
 		tb := genTable(t)
-		var ram uint32
+		ram := 0
 		rcls := "ram=0"
-		switch rapid.IntRange(0, 3).Draw(t, "ramKind") {
-		case 1, 2:
+		var aliased []byte // MRTD of the row a truncated request would select
+		switch rapid.IntRange(0, 8).Draw(t, "ramKind") {
+		case 0, 1, 2, 3:
 			if len(tb.tdx) > 0 {
-				ram = tb.tdx[rapid.IntRange(0, len(tb.tdx)-1).Draw(t, "row")].RamGib
+				ram = int(tb.tdx[rapid.IntRange(0, len(tb.tdx)-1).Draw(t, "row")].RamGib)
 				rcls = "ram=listed"
 				if ram == 0 {
 					rcls = "ram=0"
 				}
 			}
-		case 3:
+		case 5, 6:
 			for {
-				ram = rapid.SampledFrom([]uint32{1, 8, 16, 32, 88, 176, 352, 704, 1408}).Draw(t, "unlistedRam")
-				if len(tb.allowedTdx(ram)) == 0 {
+				ram = int(rapid.SampledFrom([]uint32{1, 8, 16, 32, 88, 176, 352, 704, 1408}).Draw(t, "unlistedRam"))
+				if len(tb.allowedTdxInt(ram)) == 0 {
 					break
 				}
 			}
 			rcls = "ram=unlisted"
+		case 7, 8:
+			// a number outside 32 bits: no row can be endorsed for it
+			if len(tb.tdx) > 0 {
+				row := tb.tdx[rapid.IntRange(0, len(tb.tdx)-1).Draw(t, "aliasRow")]
+				k := rapid.SampledFrom([]int64{1, -1, 2}).Draw(t, "aliasK")
+				ram = int(int64(row.RamGib) + k*two32)
+				aliased = row.Mrtd
+			} else {
+				ram = int(rapid.SampledFrom([]int64{-1, two32, two32 + 16, -16}).Draw(t, "aliasRam"))
+			}
+			rcls = "ram=outside-32-bits"
 		}
-		allowed := tb.allowedTdx(ram)
-		value, rel := pickValue(t, allowed, tb.allowedTdx(0))
+		allowed := tb.allowedTdxInt(ram)
+		base := drawTdxBase(t, tb)
+		value, rel, detail := pickValue(t, allowed, tb.allowedTdxInt(0))
+		if aliased != nil && rapid.Bool().Draw(t, "useAliased") {
+			value, rel, detail = aliased, "aliased-row", ""
+		} else if base.x != nil && rapid.IntRange(0, 2).Draw(t, "useBase") == 0 {
+			value, rel, detail = base.x, "base-listed", ""
+		}
 		entry := rapid.SampledFrom([]string{"TdxValidate", "TdxValidate", "TdxPolicy"}).Draw(t, "entry")
 		e := pki.Endorse(tb.golden(), signCert.Raw, pki.Key(1))
 		ctx := context.Background()
 		var err error
 		var pan any
+		rendering := ""
 		switch entry {
 		case "TdxValidate":
+			var quote []byte
+			quote, rendering = tdxQuote(t, value)
 			err, pan = recoverCall(func() error {
-				return gcetcbendorsement.TdxValidate(ctx, attest.TdxRawQuote(value), &gcetcbendorsement.TdxValidateOptions{Endorsement: e, RootsOfTrust: pool, Now: t0, ExpectedRAMGiB: int(ram)})
+				return gcetcbendorsement.TdxValidate(ctx, quote, &gcetcbendorsement.TdxValidateOptions{Endorsement: e, RootsOfTrust: pool, Now: t0, ExpectedRAMGiB: ram, BasePolicy: base.pol, Overwrite: base.overwrite})
 			})
 		case "TdxPolicy":
-			rel = "n/a"
+			rel, detail = "n/a", ""
+			var got [][]byte
 			err, pan = recoverCall(func() error {
-				p, perr := gcetcbendorsement.TdxPolicy(ctx, e, &gcetcbendorsement.TdxPolicyOptions{RAMGiB: int(ram)})
-				if perr != nil {
-					return perr
+				p, perr := gcetcbendorsement.TdxPolicy(ctx, e, &gcetcbendorsement.TdxPolicyOptions{RAMGiB: ram, Base: base.pol, Overwrite: base.overwrite})
+				if perr == nil {
+					got = p.GetTdQuoteBodyPolicy().GetAnyMrTd()
 				}
-				got := p.GetTdQuoteBodyPolicy().GetAnyMrTd()
-				if len(got) != len(allowed) {
-					return fmt.Errorf("MISMATCH any_mr_td has %d entries, rows for ram %d: %d", len(got), ram, len(allowed))
+				return perr
+			})
+			if pan == nil && err == nil {
+				if len(allowed) == 0 {
+					key := "C02/tdx/absent-configuration-accepted"
+					if rcls == "ram=outside-32-bits" && len(got) > 0 {
+						key = "C02/tdx/ram-size-truncated-to-32-bits"
+					}
+					ev.Violation(t, key, "TdxPolicy(ram=%d, %s) returned a policy (any_mr_td %x) although the endorsement lists no row for that size (rows: %v)", ram, base.kind, got, tb.tdx)
+					return
+				}
+				if len(got) == 0 {
+					ev.Violation(t, "C02/tdx/policy-allowlist-empty", "TdxPolicy(ram=%d, %s) returned a policy with an empty MRTD allow-list: any MRTD would pass validation", ram, base.kind)
+					return
 				}
 				for i := range got {
-					if !bytes.Equal(got[i], allowed[i]) {
-						return fmt.Errorf("MISMATCH any_mr_td[%d]=%x want %x", i, got[i], allowed[i])
+					// an empty entry is a wildcard for go-tdx-guest; it is not a member of the rows either
+					if !member(got[i], allowed) {
+						ev.Violation(t, "C02/tdx/policy-allowlist-differs", "TdxPolicy(ram=%d, %s): any_mr_td[%d]=%x is not an endorsed MRTD for that size (%x)", ram, base.kind, i, got[i], allowed)
+						return
 					}
 				}
-				return nil
-			})
-			if err != nil && len(err.Error()) > 8 && err.Error()[:8] == "MISMATCH" {
-				ev.Violation(t, "C02/tdx/policy-allowlist-differs", "TdxPolicy(ram=%d): %v", ram, err)
-				return
-			}
-			if err == nil && len(allowed) == 0 {
-				ev.Violation(t, "C02/tdx/absent-configuration-accepted", "TdxPolicy(ram=%d) returned a policy with an empty MRTD allow-list (rows: %d): any MRTD would pass validation", ram, len(tb.tdx))
-				return
+				if len(got) != len(allowed) {
+					ev.Class(name, "policy/not-all-rows-listed")
+				}
 			}
 		}
 		if pan != nil {
+			ev.Class(name, "inconclusive/panic")
 			ev.Note("panic observed at %s (judged by C07): %v", entry, pan)
 			return
 		}
@@ -433,51 +592,75 @@ func TestTdx(t *testing.T) {
 			key := "C02/tdx/unendorsed-mrtd-accepted"
 			if len(allowed) == 0 {
 				key = "C02/tdx/absent-configuration-accepted"
+				if rcls == "ram=outside-32-bits" {
+					key = "C02/tdx/ram-size-truncated-to-32-bits"
+				}
 			}
-			ev.Violation(t, key, "TdxValidate accepted MRTD %x (%s) for requested RAM %d GiB; allowed set %x", value, rel, ram, allowed)
+			ev.Violation(t, key, "TdxValidate (%s, %s) accepted MRTD %x (%s) for requested RAM %d GiB; allowed set %x", base.kind, rendering, value, rel, ram, allowed)
 			return
 		}
-		if entry == "TdxValidate" && !accepted && rel == "endorsed" {
-			ev.Violation(t, "C02/tdx/endorsed-mrtd-rejected", "TdxValidate rejected the endorsed MRTD for RAM %d: %v", ram, err)
-			return
+		if entry == "TdxValidate" && !accepted && rel == "endorsed" && (base.kind != "base=unendorsed") {
+			inconclusive(name, "endorsed-rejected", "TdxValidate (%s, %s) rejected the endorsed MRTD for RAM %d: %v", base.kind, rendering, ram, err)
 		}
-		nontrivial := (ram != 0 && (rel != "endorsed" || accepted)) || len(allowed) == 0 || rel == "one-bit-neighbour"
+		present := len(tb.tdx) > 0
+		nontrivial := present && ((ram != 0 && (rel != "endorsed" || accepted)) || len(allowed) == 0 || rel == "one-bit-neighbour" || rel == "base-listed" || rel == "aliased-row")
 		outcome := map[bool]string{true: "accept", false: "reject"}[accepted]
-		ev.Case(name, nontrivial, fmt.Sprintf("%s|%s|%s|%d", entry, rcls, rel, len(tb.tdx)), rcls+"/"+rel+"/"+outcome, func() any {
-			return map[string]any{"entry": entry, "requested_ram_gib": ram, "rows": len(tb.tdx), "relation": rel, "accepted": accepted, "error": errStr(err)}
+		ev.Case(name, nontrivial, fmt.Sprintf("%s|%s|%s|%s|%s|%d|%s", entry, base.kind, rcls, rel, detail, len(tb.tdx), rendering), rcls+"/"+rel+"/"+outcome, func() any {
+			return map[string]any{"entry": entry, "base": base.kind, "requested_ram_gib": ram, "rows": len(tb.tdx), "relation": rel, "rendering": rendering, "accepted": accepted, "error": errStr(err)}
 		})
 		ev.Class(name, "entry:"+entry)
+		if !present {
+			ev.Class(name, "table:no-rows")
+		}
+		if base.kind != "base=none" {
+			ev.Class(name, base.kind+"/"+outcome)
+		}
+		if rendering != "" {
+			ev.Class(name, "rendering:"+rendering)
+		}
 	})
 }
 
-// All 384 one-bit neighbours of one endorsed value per technology.
+// All 384 one-bit neighbours of one endorsed value per technology and entry point.
 func TestOneBitNeighbours(t *testing.T) {
 	const name = "one-bit-sweep"
 	world()
-	ev.Rule(name, "all 384 one-bit neighbours of one endorsed SNP measurement (closure with its VMSA count, SevValidate count 0) and of one endorsed MRTD (TdxValidate with its RAM size); oracle: every neighbour is rejected, the value itself accepted; exhaustive; distinct = (entry, bit)")
+	ev.Rule(name, "all 384 one-bit neighbours of one endorsed SNP measurement (verify.SNP and the closure with its VMSA count, SevValidate with count 0 and with its count; the table also carries another count and an SVSM value) and of one endorsed MRTD (TdxValidate with its RAM size and with RAM 0); oracle: every neighbour is rejected; an entry point that rejects the endorsed value itself is counted as inconclusive and its sweep does not count as non-trivial; exhaustive; distinct = (entry, bit)")
 	m := bytes.Repeat([]byte{0x42}, 48)
 	m2 := bytes.Repeat([]byte{0x24}, 48)
+	m3 := bytes.Repeat([]byte{0x81}, 48)
 	g := &epb.VMGoldenMeasurement{Timestamp: timestamppb.New(t0), ClSpec: 1, Digest: make([]byte, 48),
-		SevSnp: &epb.VMSevSnp{Measurements: map[uint32][]byte{4: m, 8: m2}, Policy: 0x70000, FamilyId: make([]byte, 16), ImageId: make([]byte, 16)},
+		SevSnp: &epb.VMSevSnp{Measurements: map[uint32][]byte{4: m, 8: m2}, SvsmMeasurement: m3, Policy: 0x70000, FamilyId: make([]byte, 16), ImageId: make([]byte, 16)},
 		Tdx:    &epb.VMTdx{Measurements: []*epb.VMTdx_Measurement{{RamGib: 16, Mrtd: m}, {RamGib: 32, Mrtd: m2}}}}
 	e := pki.Endorse(g, signCert.Raw, pki.Key(1))
 	eb, _ := proto.Marshal(e)
 	ctx := context.Background()
 	run := map[string]func(v []byte) error{
+		"verify.SNP": func(v []byte) error {
+			return verify.SNP(g, &verify.SNPOptions{Measurement: v, ExpectedLaunchVMSAs: 4})
+		},
 		"closure": func(v []byte) error {
 			return verify.SNPValidateFunc(&verify.Options{RootsOfTrust: pool, Now: t0, SNP: &verify.SNPOptions{ExpectedLaunchVMSAs: 4}})(attest.SnpAttestation(v, nil), eb)
 		},
 		"SevValidate": func(v []byte) error {
 			return gcetcbendorsement.SevValidate(ctx, attest.SnpAttestation(v, nil), &gcetcbendorsement.SevValidateOptions{Endorsement: e, RootsOfTrust: pool, Now: t0})
 		},
+		"SevValidate/count": func(v []byte) error {
+			return gcetcbendorsement.SevValidate(ctx, attest.SnpAttestation(v, nil), &gcetcbendorsement.SevValidateOptions{Endorsement: e, RootsOfTrust: pool, Now: t0, ExpectedLaunchVmsas: 4})
+		},
 		"TdxValidate": func(v []byte) error {
 			return gcetcbendorsement.TdxValidate(ctx, attest.TdxRawQuote(v), &gcetcbendorsement.TdxValidateOptions{Endorsement: e, RootsOfTrust: pool, Now: t0, ExpectedRAMGiB: 16})
 		},
+		"TdxValidate/ram0": func(v []byte) error {
+			return gcetcbendorsement.TdxValidate(ctx, attest.TdxRawQuote(v), &gcetcbendorsement.TdxValidateOptions{Endorsement: e, RootsOfTrust: pool, Now: t0})
+		},
 	}
-	for _, entry := range []string{"closure", "SevValidate", "TdxValidate"} {
-		if err := run[entry](m); err != nil {
-			ev.Violation(t, "C02/endorsed-value-rejected", "%s rejected the endorsed value: %v", entry, err)
-			continue
+	for _, entry := range []string{"verify.SNP", "closure", "SevValidate", "SevValidate/count", "TdxValidate", "TdxValidate/ram0"} {
+		live := true
+		if err, pan := recoverCall(func() error { return run[entry](m) }); err != nil || pan != nil {
+			// not demanded by the statement; the sweep below is then no evidence of anything
+			inconclusive(name, "endorsed-rejected", "%s rejected the endorsed value: %v %v", entry, err, pan)
+			live = false
 		}
 		for bit := 0; bit < 384; bit++ {
 			v := append([]byte(nil), m...)
@@ -487,7 +670,7 @@ func TestOneBitNeighbours(t *testing.T) {
 				ev.Violation(t, "C02/one-bit-neighbour-accepted", "%s accepted the neighbour of the endorsed value with bit %d flipped", entry, bit)
 				break
 			}
-			ev.Case(name, true, entry+strconv.Itoa(bit), entry, func() any { return map[string]any{"entry": entry, "bit": bit, "accepted": false} })
+			ev.Case(name, live, entry+strconv.Itoa(bit), entry, func() any { return map[string]any{"entry": entry, "bit": bit, "accepted": false} })
 		}
 	}
 	ev.Exhaustive(name)
@@ -497,7 +680,7 @@ func TestOneBitNeighbours(t *testing.T) {
 func TestRegressionTdxUnlistedRam(t *testing.T) {
 	const name = "regression"
 	world()
-	ev.Rule(name, "hand-written replays: TDX request for a RAM size without an endorsed row, and an endorsement without any TDX row, with a quote whose MRTD is not endorsed; must be rejected; all non-trivial")
+	ev.Rule(name, "hand-written replays: TDX request for a RAM size without an endorsed row, and an endorsement without any TDX row, with a quote whose MRTD is not endorsed; a RAM size outside 32 bits whose low 32 bits name a listed row; verify.SNP / EndorsementProto with a supplied zero-length measurement against a table without SVSM value; must be rejected; all non-trivial")
 	m := bytes.Repeat([]byte{0x42}, 48)
 	other := bytes.Repeat([]byte{0x99}, 48)
 	ctx := context.Background()
